@@ -30,6 +30,9 @@ POLICY_ENVS = {
     "symnco": ["tsp", "cvrp"],
     "matnet": ["atsp"],
     "l2d": ["fjsp", "jssp"],
+    # NonAutoregressivePolicy + the real NonAutoregressiveDecoder (heatmap rows as logits, multi-start row
+    # index) behind a stub heatmap encoder: the bundled NAR encoders (NARGNN) need torch_geometric
+    "nar": ["tsp", "cvrp"],
 }
 
 # environments whose get_num_starts / select_start_nodes define a start-node rule (Appendix B)
@@ -97,7 +100,32 @@ def make_policy(kind: str, env_name: str, seed: int = 0, **kw):
         from rl4co.models.zoo.l2d.policy import L2DPolicy
 
         return L2DPolicy(env_name=env_name, embed_dim=EMBED, num_encoder_layers=layers, **kw)
+    if kind == "nar":
+        return make_nar_policy(env_name, seed, **kw)
     raise HarnessError(f"unhandled policy kind {kind}")
+
+
+def make_nar_policy(env_name: str, seed: int, **kw):
+    """rl4co's NonAutoregressivePolicy / NonAutoregressiveDecoder driven by a stub heatmap encoder (a seeded
+    bilinear form of the coordinates minus the distance matrix): per-instance heatmaps that differ between
+    instances, so a row of another instance's heatmap is visible in every log-probability."""
+    import torch.nn as nn
+    from rl4co.models.common.constructive.nonautoregressive import (NonAutoregressiveEncoder,
+                                                                    NonAutoregressivePolicy)
+
+    class HeatmapStub(NonAutoregressiveEncoder):
+        def __init__(self, d=8):
+            super().__init__()
+            self.lin = nn.Linear(2, d)
+
+        def forward(self, td):
+            locs = td["locs"]
+            h = torch.tanh(self.lin(locs))
+            heat = torch.einsum("bie,bje->bij", h, h.flip(-1)) - (locs[:, :, None] - locs[:, None]).norm(dim=-1)
+            return heat, h
+
+    torch.manual_seed(seed)
+    return NonAutoregressivePolicy(HeatmapStub(), env_name=env_name, **kw)
 
 
 def env_cfg_for(kind: str, env_name: str, n: int, rng=None) -> dict:
